@@ -1,5 +1,5 @@
 SPECIFICATION Spec
-CONSTANT L = 6
+CONSTANT L = 5
 CONSTANT D = 4
 CONSTANT MaxBlocks = 3
 CONSTANT MaxLen = 2
